@@ -379,7 +379,7 @@ def main(tier, only_models=None):
         mc = mitcross.mit_ccache_cross(wd, models, images[:len(models)], 600 if not run.thorough else 6000)
         run.extra["spec_vs_mit_reader"] = {k: v for k, v in mc.items() if k != "first"}
         if mc.get("disagreements"):
-            raise vlib.Inconclusive("CCacheFormat and MIT's credential-cache reader disagree on %d files: %s" % (mc["disagreements"], mc["first"]))
+            vlib.spec_validation_problem(run, "CCacheFormat and MIT's credential-cache reader disagree on %d files: %s" % (mc["disagreements"], mc["first"]))
         # the specification itself against independent data: it must reproduce the cache file MIT kinit wrote
         if images[0]["image"] != sample["image"]:
             raise vlib.Inconclusive("CCacheFormat.Render does not reproduce the MIT sample cache of the repository's test vectors")
